@@ -86,8 +86,9 @@ func (p *Printer) typeSpec(f *Field, ind int) (tag string, attrs []string, body 
 		}
 	case "array", "map":
 		blockName := map[string]string{"array": "items", "map": "itemSchema"}[f.Kind]
-		if p.chance(25) {
-			// block form: array { items T { ... } }; the item's attributes are reached from
+		if p.chance(25) || f.Item.Kind == "array" || f.Item.Kind == "map" {
+			// block form: array { items T { ... } } (always for a nested container: the qualifier form
+			// array:array:T is read by the front end as array:T); the item's attributes are reached from
 			// the outer scope as items.<T>.<attr>
 			tag, iattrs, ibody := p.typeSpec(f.Item, ind+1)
 			base := tag
@@ -124,7 +125,7 @@ func (p *Printer) property(pr *Property, word string, ind int) {
 	mark := ""
 	var attrs []string
 	if pr.Required {
-		if p.chance(40) {
+		if p.chance(40) || pr.Optional { // both at once (malformed input): written as attributes
 			attrs = append(attrs, "required = true")
 		} else {
 			mark = "! "
@@ -132,7 +133,7 @@ func (p *Printer) property(pr *Property, word string, ind int) {
 	}
 	if pr.Optional {
 		switch {
-		case p.chance(25):
+		case p.chance(25) || pr.Required:
 			attrs = append(attrs, "optional = true")
 		case p.chance(15):
 			attrs = append(attrs, "explicitlyOptional = true")
